@@ -63,9 +63,13 @@ pub fn stroke_rect<T: Copy>(mut mask: NdTensorViewMut<T, 2>, rect: Rect, value: 
 }
 
 /// Fill all points inside `rect` with the value `value`.
+///
+/// Parts of `rect` which lie outside of the image are ignored.
 pub fn fill_rect<T: Copy>(mut mask: NdTensorViewMut<T, 2>, rect: Rect, value: T) {
-    for y in rect.top()..rect.bottom() {
-        for x in rect.left()..rect.right() {
+    let height = mask.rows().try_into().unwrap_or(i32::MAX);
+    let width = mask.cols().try_into().unwrap_or(i32::MAX);
+    for y in rect.top().max(0)..rect.bottom().min(height) {
+        for x in rect.left().max(0)..rect.right().min(width) {
             mask[[y as usize, x as usize]] = value;
         }
     }
@@ -163,7 +167,7 @@ impl Iterator for BreshamPoints {
 
 /// Draw a non-antialiased line in an image.
 pub fn draw_line<T: Copy>(mut image: NdTensorViewMut<T, 2>, line: Line, value: T, width: u32) {
-    if width == 0 {
+    if width == 0 || image.rows() == 0 || image.cols() == 0 {
         return;
     }
 
@@ -195,6 +199,10 @@ pub fn draw_line<T: Copy>(mut image: NdTensorViewMut<T, 2>, line: Line, value: T
             .map(|c| Point::from_yx(c.y as i32, c.x as i32));
 
         for p in Polygon::new(corners).fill_iter() {
+            // Skip points outside the image.
+            if p.x < 0 || p.y < 0 {
+                continue;
+            }
             if let Some(img_val) = image.get_mut(p.coord()) {
                 *img_val = value;
             }
